@@ -85,14 +85,24 @@ func runC13(r *Run) {
 		lists [][][2]int // per batch (oracle, index)
 		sizes []int      // leaf sizes per oracle
 		real  bool
+		// hiding: the circuit description has hiding set; the leaves of blinded oracles (all but the first) carry
+		// four salt values after their polynomials' evaluations, which take no part in the combination
+		hiding bool
 	}
 	combs := []comb{{name: "synthetic[2+1]", lists: [][][2]int{{{0, 0}, {1, 1}}, {{1, 0}}}, sizes: []int{1, 2}}, {name: "synthetic[8+2]", lists: [][][2]int{{{0, 0}, {0, 1}, {0, 2}, {1, 0}, {1, 1}, {2, 0}, {2, 1}, {2, 2}}, {{2, 0}, {2, 1}}}, sizes: []int{3, 2, 3}}}
+	combs = append(combs, comb{name: "synthetic[8+2], hiding", hiding: true, lists: combs[1].lists, sizes: []int{3, 2 + 4, 3 + 4}})
 	rl := polyLists(cm)
 	combs = append(combs, comb{name: "real[test_circuit]", lists: rl, real: true, sizes: []int{int(cm.NumConstants + cm.Config.NumRoutedWires), int(cm.Config.NumWires), int(cm.Config.NumChallenges * (1 + cm.NumPartialProducts)), int(cm.Config.NumChallenges * cm.QuotientDegreeFactor)}})
 	for _, cb := range combs {
 		cb := cb
 		cases = append(cases, fieldCase{name: "friCombineInitial[" + cb.name + "]", bound: "all leaf evaluations, openings, alpha, points and the domain point (symbolic canonical values); x != point", build: func(fc *fctx) ([]frontend.Variable, []*ref.N) {
-			chip := friChipFor(fc.api, cm)
+			cmx := cm
+			if cb.hiding {
+				h := *cm
+				h.FriParams.Hiding = true
+				cmx = &h
+			}
+			chip := friChipFor(fc.api, cmx)
 			var proof variables.FriInitialTreeProof
 			var rleaf [][]*ref.N
 			for o, n := range cb.sizes {
@@ -119,6 +129,15 @@ func runC13(r *Run) {
 				rzn := fc.rb.EMul(fc.rb.EFromBase(fc.rb.Const(g)), rz)
 				rbatches = []ref.FriBatch{{Point: rz}, {Point: rzn}}
 			} else {
+				if cb.hiding {
+					for o, n := range cb.sizes {
+						oi := fri.OracleInfo{NumPolys: uint64(n), Blinding: o > 0}
+						if o > 0 {
+							oi.NumPolys = uint64(n - 4)
+						}
+						inst.Oracles = append(inst.Oracles, oi)
+					}
+				}
 				for bi, l := range cb.lists {
 					pt, rpt := fc.qeIn(fmt.Sprintf("pt%d", bi))
 					var bi2 fri.BatchInfo
